@@ -1,1 +1,1737 @@
-//! (module owned by one property family; see AGENT_GUIDE.md)
+//! G-types — generator of annotation-grammar types over a generated class hierarchy.
+//!
+//! Owned by the C16/C17/C18 family. Everything here is a pure function of an `Rng`:
+//!
+//! * `Ty`      — the generator's own type AST (never emmylua's tree) + printer to annotation syntax
+//! * `Hier`    — a generated hierarchy (chains, diamonds, generic classes, aliases, enums) and the
+//!               Lua definition file that declares it
+//! * `gen_type`— random `Ty` over a `Hier`; `GenOpts::c17_subset` restricts to the sub-grammar
+//!               whose display syntax is annotation syntax (C17)
+//! * `Canon`   — order-insensitive structural normal form of a real `LuaType` (unions as sets),
+//!               used by the oracles to compare real types with each other
+//! * `shrink`  — greedy shrinking over the AST (never over characters)
+//! * `TypeWs`  — a `VirtualWorkspace` wrapper that evaluates many annotations per file
+
+use crate::rng::Rng;
+use emmylua_code_analysis::{
+    AsyncState, DiagnosticCode, FileId, LuaMemberKey, LuaType, RenderLevel, VariadicType, VirtualWorkspace, humanize_type,
+};
+use emmylua_parser::{LuaAstNode, LuaAstToken, LuaLocalName};
+use std::collections::{BTreeMap, BTreeSet};
+
+// ───────────────────────────── AST ─────────────────────────────
+
+pub const PRIMS: &[&str] = &["integer", "string", "boolean", "number", "nil", "table", "function", "thread", "userdata", "any", "unknown"];
+
+#[derive(Clone, Debug, PartialEq, Eq, Hash, PartialOrd, Ord)]
+pub enum Ty {
+    Prim(&'static str),
+    Str(String),
+    Int(i64),
+    Bool(bool),
+    Union(Vec<Ty>),
+    Opt(Box<Ty>),
+    Array(Box<Ty>),
+    Tuple(Vec<Ty>),
+    Map(Box<Ty>, Box<Ty>),
+    Record(Vec<Field>),
+    Fun(Box<FunTy>),
+    Generic(String, Vec<Ty>),
+    Class(String),
+    Alias(String),
+    Enum(String),
+    /// `T...` — only generated as last tuple element / last fun return (exotic, C16 only)
+    Variadic(Box<Ty>),
+}
+
+#[derive(Clone, Debug, PartialEq, Eq, Hash, PartialOrd, Ord)]
+pub enum FieldKey {
+    Name(String),
+    Int(i64),
+    /// `["some text"]`
+    Str(String),
+    /// index signature `[K]: V`
+    Index(Ty),
+}
+
+#[derive(Clone, Debug, PartialEq, Eq, Hash, PartialOrd, Ord)]
+pub struct Field {
+    pub key: FieldKey,
+    pub optional: bool,
+    pub ty: Ty,
+}
+
+#[derive(Clone, Debug, PartialEq, Eq, Hash, PartialOrd, Ord)]
+pub struct Param {
+    pub name: String,
+    pub optional: bool,
+    pub ty: Option<Ty>,
+}
+
+#[derive(Clone, Debug, PartialEq, Eq, Hash, PartialOrd, Ord)]
+pub struct FunTy {
+    pub is_async: bool,
+    /// `fun<T>(...)` — the parameter name; params/rets may then mention `Class(T)`-like names via `Ty::Class`
+    pub generic: Option<String>,
+    pub params: Vec<Param>,
+    /// `...` / `...: T`
+    pub vararg: Option<Option<Ty>>,
+    pub rets: Vec<Ty>,
+}
+
+// ───────────────────────────── printer ─────────────────────────────
+
+#[derive(Clone, Copy, PartialEq, Eq)]
+enum Pos {
+    /// a full `parse_type` position: anything goes
+    Top,
+    /// operand of `|`
+    UnionMember,
+    /// operand of a postfix `[]` / `?` / `...`
+    Postfix,
+    /// element of a comma separated list (a multi-return `fun` would swallow the rest)
+    ListItem,
+}
+
+pub fn escape_str(s: &str, quote: char) -> String {
+    let mut o = String::new();
+    o.push(quote);
+    for ch in s.chars() {
+        match ch {
+            '\\' => o.push_str("\\\\"),
+            '\n' => o.push_str("\\n"),
+            '\r' => o.push_str("\\r"),
+            '\t' => o.push_str("\\t"),
+            '\0' => o.push_str("\\0"),
+            c if c == quote => {
+                o.push('\\');
+                o.push(c)
+            }
+            c if (c as u32) < 0x20 || c as u32 == 0x7f => o.push_str(&format!("\\x{:02X}", c as u32)),
+            c if (0x80..0xA0).contains(&(c as u32)) => o.push_str(&format!("\\u{{{:X}}}", c as u32)),
+            c => o.push(c),
+        }
+    }
+    o.push(quote);
+    o
+}
+
+/// The annotation lexer ends a string literal at the next occurrence of its opening quote and
+/// knows no `\"` escape, so a literal containing `"` must be written with single quotes (and a
+/// literal containing both kinds of quote cannot be written at all: the generator never makes one).
+pub fn quote_for(s: &str) -> char {
+    if s.contains('"') && !s.contains('\'') { '\'' } else { '"' }
+}
+
+pub fn is_ident(s: &str) -> bool {
+    let mut cs = s.chars();
+    match cs.next() {
+        Some(c) if c.is_ascii_alphabetic() || c == '_' => {}
+        _ => return false,
+    }
+    cs.all(|c| c.is_ascii_alphanumeric() || c == '_')
+}
+
+impl Ty {
+    pub fn print(&self) -> String {
+        let mut s = String::new();
+        self.print_at(Pos::Top, &mut s);
+        s
+    }
+
+    fn needs_paren(&self, pos: Pos) -> bool {
+        match pos {
+            Pos::Top => false,
+            Pos::ListItem => matches!(self, Ty::Fun(_)),
+            Pos::UnionMember => matches!(self, Ty::Union(_) | Ty::Opt(_) | Ty::Fun(_) | Ty::Variadic(_)),
+            Pos::Postfix => match self {
+                Ty::Union(_) | Ty::Opt(_) | Ty::Fun(_) | Ty::Variadic(_) => true,
+                Ty::Int(i) => *i < 0,
+                _ => false,
+            },
+        }
+    }
+
+    fn print_at(&self, pos: Pos, o: &mut String) {
+        let paren = self.needs_paren(pos);
+        if paren {
+            o.push('(');
+        }
+        match self {
+            Ty::Prim(p) => o.push_str(p),
+            Ty::Str(s) => o.push_str(&escape_str(s, quote_for(s))),
+            Ty::Int(i) => o.push_str(&i.to_string()),
+            Ty::Bool(b) => o.push_str(if *b { "true" } else { "false" }),
+            Ty::Union(ms) => {
+                for (i, m) in ms.iter().enumerate() {
+                    if i > 0 {
+                        o.push('|');
+                    }
+                    m.print_at(Pos::UnionMember, o);
+                }
+            }
+            Ty::Opt(t) => {
+                t.print_at(Pos::Postfix, o);
+                o.push('?');
+            }
+            Ty::Array(t) => {
+                t.print_at(Pos::Postfix, o);
+                o.push_str("[]");
+            }
+            Ty::Tuple(ts) => {
+                o.push('[');
+                for (i, t) in ts.iter().enumerate() {
+                    if i > 0 {
+                        o.push_str(", ");
+                    }
+                    t.print_at(Pos::ListItem, o);
+                }
+                o.push(']');
+            }
+            Ty::Map(k, v) => {
+                o.push_str("table<");
+                k.print_at(Pos::ListItem, o);
+                o.push_str(", ");
+                v.print_at(Pos::ListItem, o);
+                o.push('>');
+            }
+            Ty::Record(fs) => {
+                if fs.is_empty() {
+                    o.push_str("{}");
+                } else {
+                    o.push_str("{ ");
+                    for (i, f) in fs.iter().enumerate() {
+                        if i > 0 {
+                            o.push_str(", ");
+                        }
+                        match &f.key {
+                            FieldKey::Name(n) => o.push_str(n),
+                            FieldKey::Int(n) => o.push_str(&format!("[{n}]")),
+                            FieldKey::Str(s) => {
+                                o.push('[');
+                                o.push_str(&escape_str(s, quote_for(s)));
+                                o.push(']')
+                            }
+                            FieldKey::Index(k) => {
+                                o.push('[');
+                                k.print_at(Pos::Top, o);
+                                o.push(']')
+                            }
+                        }
+                        if f.optional {
+                            o.push('?');
+                        }
+                        o.push_str(": ");
+                        f.ty.print_at(Pos::ListItem, o);
+                    }
+                    o.push_str(" }");
+                }
+            }
+            Ty::Fun(f) => {
+                if f.is_async {
+                    o.push_str("async ");
+                }
+                o.push_str("fun");
+                if let Some(g) = &f.generic {
+                    o.push('<');
+                    o.push_str(g);
+                    o.push('>');
+                }
+                o.push('(');
+                let mut first = true;
+                for p in &f.params {
+                    if !first {
+                        o.push_str(", ");
+                    }
+                    first = false;
+                    o.push_str(&p.name);
+                    if p.optional {
+                        o.push('?');
+                    }
+                    if let Some(t) = &p.ty {
+                        o.push_str(": ");
+                        t.print_at(Pos::ListItem, o);
+                    }
+                }
+                if let Some(v) = &f.vararg {
+                    if !first {
+                        o.push_str(", ");
+                    }
+                    o.push_str("...");
+                    if let Some(t) = v {
+                        o.push_str(": ");
+                        t.print_at(Pos::ListItem, o);
+                    }
+                }
+                o.push(')');
+                if !f.rets.is_empty() {
+                    o.push_str(": ");
+                    for (i, r) in f.rets.iter().enumerate() {
+                        if i > 0 {
+                            o.push_str(", ");
+                        }
+                        let mut piece = String::new();
+                        r.print_at(Pos::ListItem, &mut piece);
+                        // `fun(): (` opens the LuaLS-style parenthesised return *list*: a first
+                        // return type whose text starts with `(` needs one more pair of parentheses
+                        if i == 0 && piece.starts_with('(') {
+                            o.push('(');
+                            o.push_str(&piece);
+                            o.push(')');
+                        } else {
+                            o.push_str(&piece);
+                        }
+                    }
+                }
+            }
+            Ty::Generic(n, args) => {
+                o.push_str(n);
+                o.push('<');
+                for (i, a) in args.iter().enumerate() {
+                    if i > 0 {
+                        o.push_str(", ");
+                    }
+                    a.print_at(Pos::ListItem, o);
+                }
+                o.push('>');
+            }
+            Ty::Class(n) | Ty::Alias(n) | Ty::Enum(n) => o.push_str(n),
+            Ty::Variadic(t) => {
+                t.print_at(Pos::Postfix, o);
+                o.push_str("...");
+            }
+        }
+        if paren {
+            o.push(')');
+        }
+    }
+
+    pub fn children(&self) -> Vec<&Ty> {
+        match self {
+            Ty::Union(v) | Ty::Tuple(v) | Ty::Generic(_, v) => v.iter().collect(),
+            Ty::Opt(t) | Ty::Array(t) | Ty::Variadic(t) => vec![t],
+            Ty::Map(k, v) => vec![k, v],
+            Ty::Record(fs) => {
+                let mut o = Vec::new();
+                for f in fs {
+                    if let FieldKey::Index(k) = &f.key {
+                        o.push(k);
+                    }
+                    o.push(&f.ty);
+                }
+                o
+            }
+            Ty::Fun(f) => {
+                let mut o: Vec<&Ty> = f.params.iter().filter_map(|p| p.ty.as_ref()).collect();
+                if let Some(Some(t)) = &f.vararg {
+                    o.push(t);
+                }
+                o.extend(f.rets.iter());
+                o
+            }
+            _ => vec![],
+        }
+    }
+
+    pub fn nodes(&self) -> usize {
+        1 + self.children().iter().map(|c| c.nodes()).sum::<usize>()
+    }
+
+    pub fn depth(&self) -> usize {
+        1 + self.children().iter().map(|c| c.depth()).max().unwrap_or(0)
+    }
+
+    /// names of classes / aliases / enums / generic bases mentioned
+    pub fn names(&self, out: &mut BTreeSet<String>) {
+        match self {
+            Ty::Class(n) | Ty::Alias(n) | Ty::Enum(n) => {
+                out.insert(n.clone());
+            }
+            Ty::Generic(n, _) => {
+                out.insert(n.clone());
+            }
+            _ => {}
+        }
+        for c in self.children() {
+            c.names(out);
+        }
+    }
+
+    pub fn ctor(&self) -> &'static str {
+        match self {
+            Ty::Prim(p) => p,
+            Ty::Str(_) => "strlit",
+            Ty::Int(_) => "intlit",
+            Ty::Bool(_) => "boollit",
+            Ty::Union(_) => "union",
+            Ty::Opt(_) => "optional",
+            Ty::Array(_) => "array",
+            Ty::Tuple(_) => "tuple",
+            Ty::Map(..) => "map",
+            Ty::Record(_) => "record",
+            Ty::Fun(_) => "fun",
+            Ty::Generic(..) => "generic",
+            Ty::Class(_) => "class",
+            Ty::Alias(_) => "alias",
+            Ty::Enum(_) => "enum",
+            Ty::Variadic(_) => "variadic",
+        }
+    }
+
+    /// Structural skeleton used in signatures: constructors with generalised leaves
+    /// (no names, no literal values; string literals carry their character classes).
+    pub fn skeleton(&self) -> String {
+        match self {
+            Ty::Str(s) => format!("strlit{}", str_classes(s)),
+            Ty::Int(i) => if *i < 0 { "intlit[neg]".into() } else { "intlit".into() },
+            Ty::Record(fs) => {
+                let mut parts = Vec::new();
+                for f in fs {
+                    let k = match &f.key {
+                        FieldKey::Name(_) => "name".to_string(),
+                        FieldKey::Int(_) => "int".to_string(),
+                        FieldKey::Str(s) => if is_ident(s) { "quoted-identifier".to_string() } else { "quoted-non-identifier".to_string() },
+                        FieldKey::Index(k) => format!("[{}]", k.skeleton()),
+                    };
+                    parts.push(format!("{k}{}:{}", if f.optional { "?" } else { "" }, f.ty.skeleton()));
+                }
+                format!("record{{{}}}", parts.join(","))
+            }
+            // a generic function type is characterised by being generic; its shape is secondary
+            Ty::Fun(f) if f.generic.is_some() => "fun<T>".to_string(),
+            // union members are a set: sort their skeletons
+            Ty::Union(ms) => {
+                let mut parts: Vec<String> = ms.iter().map(|m| m.skeleton()).collect();
+                parts.sort();
+                format!("union({})", parts.join(","))
+            }
+            Ty::Fun(f) => {
+                let mut parts: Vec<String> = f.params.iter().map(|p| format!("{}{}", if p.optional { "?" } else { "" }, p.ty.as_ref().map(|t| t.skeleton()).unwrap_or_else(|| "_".into()))).collect();
+                if let Some(v) = &f.vararg {
+                    parts.push(format!("...{}", v.as_ref().map(|t| t.skeleton()).unwrap_or_default()));
+                }
+                let rets: Vec<String> = f.rets.iter().map(|r| r.skeleton()).collect();
+                format!("{}fun{}({})->({})", if f.is_async { "async-" } else { "" }, if f.generic.is_some() { "<T>" } else { "" }, parts.join(","), rets.join(","))
+            }
+            _ => {
+                let ch = self.children();
+                if ch.is_empty() {
+                    self.ctor().to_string()
+                } else {
+                    format!("{}({})", self.ctor(), ch.iter().map(|c| c.skeleton()).collect::<Vec<_>>().join(","))
+                }
+            }
+        }
+    }
+}
+
+impl Ty {
+    /// Constructor label of this node alone, with the signature-relevant refinements.
+    fn label(&self) -> String {
+        match self {
+            Ty::Fun(f) if f.generic.is_some() => "fun<T>".into(),
+            Ty::Str(s) => format!("strlit{}", str_classes(s)),
+            Ty::Int(i) if *i < 0 => "intlit[neg]".into(),
+            Ty::Record(fs) if fs.iter().any(|f| matches!(&f.key, FieldKey::Str(k) if !is_ident(k))) => "record[quoted-non-identifier-key]".into(),
+            t => t.ctor().to_string(),
+        }
+    }
+
+    fn exotic_rank(&self) -> u32 {
+        match self {
+            Ty::Fun(f) if f.generic.is_some() => 100,
+            Ty::Variadic(_) => 90,
+            Ty::Generic(..) => 80,
+            Ty::Fun(_) => 70,
+            Ty::Tuple(_) => 60,
+            Ty::Record(_) => 50,
+            Ty::Map(..) => 45,
+            Ty::Array(_) => 40,
+            Ty::Opt(_) => 35,
+            Ty::Union(_) => 30,
+            Ty::Enum(_) => 25,
+            Ty::Alias(_) => 24,
+            Ty::Class(_) => 20,
+            Ty::Str(s) if !str_classes(s).is_empty() => 15,
+            Ty::Int(i) if *i < 0 => 14,
+            Ty::Str(_) | Ty::Int(_) | Ty::Bool(_) => 10,
+            Ty::Prim("integer") | Ty::Prim("string") => 1,
+            Ty::Prim(_) => 5,
+        }
+    }
+
+    fn most_exotic(&self) -> &Ty {
+        let mut best = self;
+        for c in self.children() {
+            let m = c.most_exotic();
+            if m.exotic_rank() > best.exotic_rank() {
+                best = m;
+            }
+        }
+        best
+    }
+
+    /// `outer=<root constructor>:inner=<most exotic constructor below the root>` of a shrunk witness.
+    pub fn outer_inner(&self) -> String {
+        let inner = self.children().iter().map(|c| c.most_exotic()).max_by_key(|t| t.exotic_rank()).map(|t| t.label()).unwrap_or_else(|| "-".into());
+        format!("outer={}:inner={}", self.label(), inner)
+    }
+
+    /// Every class/alias/enum/generic name used is either declared in `h` or bound by an enclosing
+    /// `fun<T>` (a shrink step may not hoist `T` out of its generic function).
+    pub fn well_scoped(&self, h: &Hier) -> bool {
+        fn go(t: &Ty, h: &Hier, bound: &mut Vec<String>) -> bool {
+            let known = |n: &str, bound: &Vec<String>| bound.iter().any(|b| b == n) || h.classes.iter().any(|c| c.name == n) || h.aliases.iter().any(|a| a.name == n) || h.enums.iter().any(|e| e.name == n);
+            match t {
+                Ty::Class(n) | Ty::Alias(n) | Ty::Enum(n) => {
+                    if !known(n, bound) {
+                        return false;
+                    }
+                }
+                Ty::Generic(n, _) => {
+                    if !known(n, bound) {
+                        return false;
+                    }
+                }
+                _ => {}
+            }
+            let pushed = match t {
+                Ty::Fun(f) => match &f.generic {
+                    Some(g) => {
+                        bound.push(g.clone());
+                        true
+                    }
+                    None => false,
+                },
+                _ => false,
+            };
+            let ok = t.children().iter().all(|c| go(c, h, bound));
+            if pushed {
+                bound.pop();
+            }
+            ok
+        }
+        go(self, h, &mut Vec::new())
+    }
+}
+
+/// character classes occurring in a string literal (for signatures)
+pub fn str_classes(s: &str) -> String {
+    let mut set = BTreeSet::new();
+    for c in s.chars() {
+        let k = match c {
+            '"' => "dquote",
+            '\'' => "squote",
+            '\\' => "backslash",
+            '\n' | '\r' | '\t' => "nl-tab",
+            c if (c as u32) < 0x20 || c as u32 == 0x7f => "c0-control",
+            c if (0x80..0xA0).contains(&(c as u32)) => "c1-control",
+            c if !c.is_ascii() => "non-ascii",
+            c if c.is_ascii_alphanumeric() || c == '_' => continue,
+            ' ' => "space",
+            _ => "punct",
+        };
+        set.insert(k);
+    }
+    if set.is_empty() { String::new() } else { format!("[{}]", set.into_iter().collect::<Vec<_>>().join("+")) }
+}
+
+// ───────────────────────────── hierarchy ─────────────────────────────
+
+#[derive(Clone, Debug)]
+pub struct ClassDef {
+    pub name: String,
+    /// generic parameter names (empty for plain classes)
+    pub tparams: Vec<String>,
+    /// parents as printed types (`C0`, `Box<integer>`, `string`)
+    pub parents: Vec<Ty>,
+    pub fields: Vec<(String, Ty)>,
+}
+
+#[derive(Clone, Debug)]
+pub struct AliasDef {
+    pub name: String,
+    /// generic parameter names (`---@alias M0<T> T?`); empty for plain aliases
+    pub tparams: Vec<String>,
+    pub ty: Ty,
+    /// declared with the multi-line `---| "a"` form
+    pub multiline: bool,
+}
+
+#[derive(Clone, Debug)]
+pub struct EnumDef {
+    pub name: String,
+    pub key_enum: bool,
+    /// (field name, value)
+    pub items: Vec<(String, Ty)>,
+}
+
+#[derive(Clone, Debug, Default)]
+pub struct Hier {
+    /// arguments used to instantiate generic classes in `ancestor_pairs`
+    pub inst_args: Vec<Ty>,
+    pub classes: Vec<ClassDef>,
+    pub aliases: Vec<AliasDef>,
+    pub enums: Vec<EnumDef>,
+}
+
+impl Hier {
+    /// Plain (non generic) class names.
+    pub fn plain_classes(&self) -> Vec<&str> {
+        self.classes.iter().filter(|c| c.tparams.is_empty()).map(|c| c.name.as_str()).collect()
+    }
+    pub fn generic_classes(&self) -> Vec<(&str, usize)> {
+        self.classes.iter().filter(|c| !c.tparams.is_empty()).map(|c| (c.name.as_str(), c.tparams.len())).collect()
+    }
+    pub fn generic_aliases(&self) -> Vec<(&str, usize)> {
+        self.aliases.iter().filter(|a| !a.tparams.is_empty()).map(|a| (a.name.as_str(), a.tparams.len())).collect()
+    }
+    pub fn plain_aliases(&self) -> Vec<&str> {
+        self.aliases.iter().filter(|a| a.tparams.is_empty()).map(|a| a.name.as_str()).collect()
+    }
+    pub fn class(&self, name: &str) -> Option<&ClassDef> {
+        self.classes.iter().find(|c| c.name == name)
+    }
+
+    /// Ancestors of a class type (a plain class, or an instance of a generic class), with the
+    /// generic parameters substituted along the way: (ancestor as written in the headers, distance).
+    pub fn instance_ancestors(&self, inst: &Ty) -> Vec<(Ty, usize)> {
+        let mut out: Vec<(Ty, usize)> = Vec::new();
+        let mut seen: BTreeSet<String> = BTreeSet::new();
+        let mut frontier: Vec<(Ty, usize)> = vec![(inst.clone(), 0)];
+        while let Some((cur, d)) = frontier.pop() {
+            let (name, args): (&str, Vec<Ty>) = match &cur {
+                Ty::Class(n) => (n.as_str(), vec![]),
+                Ty::Generic(n, a) => (n.as_str(), a.clone()),
+                _ => continue,
+            };
+            let Some(def) = self.class(name) else { continue };
+            if def.tparams.len() != args.len() {
+                continue;
+            }
+            for p in &def.parents {
+                let tparams = def.tparams.clone();
+                let args2 = args.clone();
+                let p2 = p.rewrite(&|t| match &t {
+                    Ty::Class(n) => match tparams.iter().position(|tp| tp == n) {
+                        Some(ix) => args2[ix].clone(),
+                        None => t,
+                    },
+                    _ => t,
+                });
+                if seen.insert(p2.print()) {
+                    out.push((p2.clone(), d + 1));
+                    frontier.push((p2, d + 1));
+                }
+            }
+        }
+        out
+    }
+
+    /// All (ancestor, descendant, distance) pairs: every plain class and one instance of every
+    /// generic class (arguments `inst_args`) against each of its ancestors.
+    pub fn ancestor_pairs(&self) -> Vec<(Ty, Ty, usize)> {
+        let mut out = Vec::new();
+        for c in &self.classes {
+            let inst = if c.tparams.is_empty() {
+                Ty::Class(c.name.clone())
+            } else {
+                Ty::Generic(c.name.clone(), (0..c.tparams.len()).map(|i| self.inst_args[i % self.inst_args.len().max(1)].clone()).collect())
+            };
+            for (a, d) in self.instance_ancestors(&inst) {
+                out.push((a, inst.clone(), d));
+            }
+        }
+        out.sort_by(|a, b| (a.1.print(), a.0.print()).cmp(&(b.1.print(), b.0.print())));
+        out
+    }
+
+    /// The Lua file declaring everything (or only what `only` transitively needs).
+    pub fn to_lua(&self, only: Option<&BTreeSet<String>>) -> String {
+        let keep = only.map(|o| self.closure(o));
+        let want = |n: &str| keep.as_ref().map(|k| k.contains(n)).unwrap_or(true);
+        let mut s = String::new();
+        for c in &self.classes {
+            if !want(&c.name) {
+                continue;
+            }
+            s.push_str("---@class ");
+            s.push_str(&c.name);
+            if !c.tparams.is_empty() {
+                s.push('<');
+                s.push_str(&c.tparams.join(", "));
+                s.push('>');
+            }
+            if !c.parents.is_empty() {
+                s.push_str(": ");
+                s.push_str(&c.parents.iter().map(|p| p.print()).collect::<Vec<_>>().join(", "));
+            }
+            s.push('\n');
+            for (f, t) in &c.fields {
+                s.push_str(&format!("---@field {f} {}\n", t.print()));
+            }
+            s.push('\n');
+        }
+        for a in &self.aliases {
+            if !want(&a.name) {
+                continue;
+            }
+            let head = if a.tparams.is_empty() { a.name.clone() } else { format!("{}<{}>", a.name, a.tparams.join(", ")) };
+            match (&a.ty, a.multiline) {
+                (Ty::Union(ms), true) => {
+                    s.push_str(&format!("---@alias {}\n", head));
+                    for m in ms {
+                        s.push_str(&format!("---| {}\n", m.print()));
+                    }
+                }
+                _ => s.push_str(&format!("---@alias {} {}\n", head, a.ty.print())),
+            }
+            s.push('\n');
+        }
+        for e in &self.enums {
+            if !want(&e.name) {
+                continue;
+            }
+            s.push_str(&format!("---@enum {}{}\nlocal {} = {{\n", if e.key_enum { "(key) " } else { "" }, e.name, e.name));
+            for (k, v) in &e.items {
+                let vs = match v {
+                    Ty::Str(x) => escape_str(x, '"'),
+                    Ty::Int(i) => i.to_string(),
+                    _ => "0".into(),
+                };
+                s.push_str(&format!("    {k} = {vs},\n"));
+            }
+            s.push_str("}\n\n");
+        }
+        s
+    }
+
+    fn closure(&self, roots: &BTreeSet<String>) -> BTreeSet<String> {
+        let mut keep = roots.clone();
+        loop {
+            let mut add = BTreeSet::new();
+            for c in &self.classes {
+                if keep.contains(&c.name) {
+                    for p in &c.parents {
+                        p.names(&mut add);
+                    }
+                    for (_, t) in &c.fields {
+                        t.names(&mut add);
+                    }
+                }
+            }
+            for a in &self.aliases {
+                if keep.contains(&a.name) {
+                    a.ty.names(&mut add);
+                }
+            }
+            let before = keep.len();
+            keep.extend(add);
+            if keep.len() == before {
+                return keep;
+            }
+        }
+    }
+
+    /// Deterministic generation: at least one chain of length 4, one diamond, two generic
+    /// classes with plain subclasses, a class derived from a primitive, 3–5 aliases, 3 enums.
+    pub fn generate(rng: &mut Rng) -> Hier {
+        let mut h = Hier::default();
+        let leaf = |rng: &mut Rng| -> Ty {
+            match rng.below(6) {
+                0 => Ty::Prim("integer"),
+                1 => Ty::Prim("string"),
+                2 => Ty::Prim("boolean"),
+                3 => Ty::Opt(Box::new(Ty::Prim("string"))),
+                4 => Ty::Array(Box::new(Ty::Prim("integer"))),
+                _ => Ty::Prim("number"),
+            }
+        };
+        // chain C0 <- C1 <- C2 <- C3
+        for i in 0..4 {
+            let mut fields = Vec::new();
+            if rng.chance(2, 3) {
+                fields.push((format!("c{i}"), leaf(rng)));
+            }
+            h.classes.push(ClassDef { name: format!("C{i}"), tparams: vec![], parents: if i == 0 { vec![] } else { vec![Ty::Class(format!("C{}", i - 1))] }, fields });
+        }
+        // diamond D0 <- D1, D2 <- D3
+        h.classes.push(ClassDef { name: "D0".into(), tparams: vec![], parents: vec![], fields: vec![("d0".into(), leaf(rng))] });
+        h.classes.push(ClassDef { name: "D1".into(), tparams: vec![], parents: vec![Ty::Class("D0".into())], fields: vec![] });
+        h.classes.push(ClassDef { name: "D2".into(), tparams: vec![], parents: vec![Ty::Class("D0".into())], fields: if rng.bool() { vec![("d2".into(), leaf(rng))] } else { vec![] } });
+        h.classes.push(ClassDef { name: "D3".into(), tparams: vec![], parents: vec![Ty::Class("D1".into()), Ty::Class("D2".into())], fields: vec![] });
+        // random extra classes with 0..2 parents among earlier plain classes
+        let extra = rng.range(2, 5);
+        for i in 0..extra {
+            let plain: Vec<String> = h.plain_classes().iter().map(|s| s.to_string()).collect();
+            let np = match rng.below(10) {
+                0..=2 => 0,
+                3..=7 => 1,
+                _ => 2,
+            };
+            let mut parents: Vec<Ty> = Vec::new();
+            for _ in 0..np {
+                let p = Ty::Class(plain[rng.below(plain.len())].clone());
+                if !parents.contains(&p) {
+                    parents.push(p);
+                }
+            }
+            let mut fields = Vec::new();
+            if rng.bool() {
+                fields.push((format!("x{i}"), leaf(rng)));
+            }
+            h.classes.push(ClassDef { name: format!("X{i}"), tparams: vec![], parents, fields });
+        }
+        // generic classes and plain subclasses of their instances
+        h.classes.push(ClassDef { name: "Box".into(), tparams: vec!["T".into()], parents: vec![], fields: vec![("value".into(), Ty::Class("T".into()))] });
+        h.classes.push(ClassDef { name: "Pair".into(), tparams: vec!["K".into(), "V".into()], parents: vec![], fields: vec![("k".into(), Ty::Class("K".into())), ("v".into(), Ty::Class("V".into()))] });
+        let arg = leaf(rng);
+        h.classes.push(ClassDef { name: "G0".into(), tparams: vec![], parents: vec![Ty::Generic("Box".into(), vec![arg])], fields: vec![] });
+        h.classes.push(ClassDef { name: "G1".into(), tparams: vec![], parents: vec![Ty::Class("G0".into())], fields: vec![] });
+        // generic chain H1<T> : H0<T> : Box<T>, and plain classes below an instance of it
+        h.classes.push(ClassDef { name: "H0".into(), tparams: vec!["T".into()], parents: vec![Ty::Generic("Box".into(), vec![Ty::Class("T".into())])], fields: vec![] });
+        h.classes.push(ClassDef { name: "H1".into(), tparams: vec!["T".into()], parents: vec![Ty::Generic("H0".into(), vec![Ty::Class("T".into())])], fields: if rng.bool() { vec![("h1".into(), Ty::Class("T".into()))] } else { vec![] } });
+        let arg2 = leaf(rng);
+        h.classes.push(ClassDef { name: "G2".into(), tparams: vec![], parents: vec![Ty::Generic("H1".into(), vec![arg2])], fields: vec![] });
+        h.classes.push(ClassDef { name: "G3".into(), tparams: vec![], parents: vec![Ty::Class("G2".into())], fields: vec![] });
+        h.inst_args = vec![leaf(rng), leaf(rng)];
+        // class derived from a primitive
+        h.classes.push(ClassDef { name: "S0".into(), tparams: vec![], parents: vec![Ty::Prim("string")], fields: vec![] });
+        // enums
+        h.enums.push(EnumDef { name: "E0".into(), key_enum: false, items: vec![("A".into(), Ty::Int(1)), ("B".into(), Ty::Int(2)), ("C".into(), Ty::Int(4))] });
+        h.enums.push(EnumDef { name: "E1".into(), key_enum: false, items: vec![("X".into(), Ty::Str("x".into())), ("Y".into(), Ty::Str("y".into()))] });
+        h.enums.push(EnumDef { name: "E2".into(), key_enum: true, items: vec![("Red".into(), Ty::Int(1)), ("Green".into(), Ty::Int(2))] });
+        // aliases (non recursive; may mention classes, enums and earlier aliases)
+        h.aliases.push(AliasDef { name: "A0".into(), tparams: vec![], ty: Ty::Union(vec![Ty::Str("r".into()), Ty::Str("w".into()), Ty::Str("rw".into())]), multiline: false });
+        h.aliases.push(AliasDef { name: "A1".into(), tparams: vec![], ty: Ty::Union(vec![Ty::Str("a".into()), Ty::Str("b".into())]), multiline: true });
+        let n_al = rng.range(1, 3);
+        for i in 0..n_al {
+            let opts = GenOpts { depth: 2, c17_subset: false, exotic: false, allow_any: false, allow_unknown: false, generic_alias: false };
+            let ty = gen_type(rng, &h, &opts);
+            h.aliases.push(AliasDef { name: format!("A{}", i + 2), tparams: vec![], ty, multiline: false });
+        }
+        // generic aliases
+        h.aliases.push(AliasDef { name: "M0".into(), tparams: vec!["T".into()], ty: Ty::Opt(Box::new(Ty::Class("T".into()))), multiline: false });
+        h.aliases.push(AliasDef { name: "R0".into(), tparams: vec!["K".into(), "V".into()], ty: Ty::Map(Box::new(Ty::Class("K".into())), Box::new(Ty::Array(Box::new(Ty::Class("V".into()))))), multiline: false });
+        h
+    }
+}
+
+// ───────────────────────────── generator ─────────────────────────────
+
+#[derive(Clone, Debug)]
+pub struct GenOpts {
+    pub depth: usize,
+    /// restrict to the C17 sub-grammar (no tuples, functions, generic instances, variadics)
+    pub c17_subset: bool,
+    /// allow variadics, generic function types, async, vararg params
+    pub exotic: bool,
+    /// allow `any` / `unknown` leaves
+    pub allow_any: bool,
+    /// allow `unknown` leaves (only with `allow_any`)
+    pub allow_unknown: bool,
+    /// allow instances of generic aliases (`M0<integer>`) next to instances of generic classes
+    pub generic_alias: bool,
+}
+
+const STR_POOL: &[&str] = &[
+    "a", "b", "ok", "x y", "rw", "it's", "say \"hi\"", "back\\slash", "line\nbreak", "tab\there", "a|b", "q?", "[]", "a,b", "é", "日本", "--", "#", "", " ", "\u{7}", "\u{1b}[0m", "\u{85}", "%d", "{}",
+    "<T>", "fun()", "nil", "a\\\"b",
+];
+
+pub fn gen_str(rng: &mut Rng) -> String {
+    if rng.chance(3, 4) {
+        rng.pick(STR_POOL).to_string()
+    } else {
+        let n = rng.range(0, 6);
+        let alphabet: Vec<char> = "abXY01 _-'\"\\\n\t|?[](){}<>,.:;#%é日".chars().collect();
+        let s: String = (0..n).map(|_| alphabet[rng.below(alphabet.len())]).collect();
+        if s.contains('"') && s.contains('\'') { s.replace('\'', "") } else { s }
+    }
+}
+
+fn gen_leaf(rng: &mut Rng, h: &Hier, o: &GenOpts) -> Ty {
+    match rng.below(100) {
+        0..=29 => {
+            let p = rng.pick(&["integer", "string", "boolean", "number", "table", "function", "thread", "userdata", "nil"]);
+            Ty::Prim(p)
+        }
+        30..=33 if o.allow_any => Ty::Prim(if o.allow_unknown { rng.pick(&["any", "unknown"]) } else { "any" }),
+        30..=33 => Ty::Prim("integer"),
+        34..=45 => Ty::Str(gen_str(rng)),
+        46..=53 => Ty::Int(match rng.below(6) {
+            0 => 0,
+            1 => -1,
+            2 => 1,
+            3 => rng.below(1000) as i64,
+            4 => -(rng.below(1000) as i64),
+            _ => i64::MAX,
+        }),
+        54..=58 => Ty::Bool(rng.bool()),
+        59..=80 => {
+            let cs = h.plain_classes();
+            if cs.is_empty() { Ty::Prim("integer") } else { Ty::Class(cs[rng.below(cs.len())].to_string()) }
+        }
+        81..=90 => {
+            let al = h.plain_aliases();
+            if al.is_empty() { Ty::Prim("string") } else { Ty::Alias(al[rng.below(al.len())].to_string()) }
+        }
+        _ => {
+            if h.enums.is_empty() { Ty::Prim("string") } else { Ty::Enum(h.enums[rng.below(h.enums.len())].name.clone()) }
+        }
+    }
+}
+
+fn field_name(rng: &mut Rng, i: usize) -> String {
+    const NAMES: &[&str] = &["a", "b", "id", "name", "x", "y", "on_event", "_p", "k1", "value"];
+    format!("{}{}", rng.pick(NAMES), if i > 0 && rng.bool() { i.to_string() } else { String::new() })
+}
+
+pub fn gen_type(rng: &mut Rng, h: &Hier, o: &GenOpts) -> Ty {
+    if o.depth <= 1 || rng.chance(1, 4) {
+        return gen_leaf(rng, h, o);
+    }
+    let sub = GenOpts { depth: o.depth - 1, ..o.clone() };
+    let pick = rng.below(100);
+    match pick {
+        0..=21 => {
+            let n = rng.range(2, 4);
+            let mut ms: Vec<Ty> = Vec::new();
+            for _ in 0..n {
+                let m = gen_type(rng, h, &sub);
+                // the generator keeps union members syntactically distinct and un-nested (the
+                // annotation `A|(B|C)` flattens anyway; nested unions are still produced via Opt)
+                match m {
+                    Ty::Union(inner) => {
+                        for x in inner {
+                            if !ms.contains(&x) {
+                                ms.push(x);
+                            }
+                        }
+                    }
+                    m => {
+                        if !ms.contains(&m) {
+                            ms.push(m);
+                        }
+                    }
+                }
+            }
+            if ms.len() == 1 { ms.pop().unwrap() } else { Ty::Union(ms) }
+        }
+        22..=33 => Ty::Opt(Box::new(gen_type(rng, h, &sub))),
+        34..=47 => Ty::Array(Box::new(gen_type(rng, h, &sub))),
+        48..=57 => Ty::Map(Box::new(gen_map_key(rng, h, &sub)), Box::new(gen_type(rng, h, &sub))),
+        58..=71 => {
+            let n = rng.range(0, 3);
+            let mut fs: Vec<Field> = Vec::new();
+            for i in 0..n {
+                let key = match rng.below(20) {
+                    0..=13 => FieldKey::Name(field_name(rng, i)),
+                    14..=15 => FieldKey::Int(rng.range(1, 3) as i64),
+                    16 => FieldKey::Str(rng.pick(&["a b", "x-y", "k", "1st"]).to_string()),
+                    _ => FieldKey::Index(Ty::Prim(rng.pick(&["string", "integer"]))),
+                };
+                if fs.iter().any(|f| f.key == key) {
+                    continue;
+                }
+                let optional = !matches!(key, FieldKey::Index(_)) && rng.chance(1, 3);
+                fs.push(Field { key, optional, ty: gen_type(rng, h, &sub) });
+            }
+            Ty::Record(fs)
+        }
+        _ if o.c17_subset => gen_leaf(rng, h, o),
+        72..=79 => {
+            let n = rng.range(1, 3);
+            let mut ts: Vec<Ty> = (0..n).map(|_| gen_type(rng, h, &sub)).collect();
+            if o.exotic && rng.chance(1, 5) {
+                ts.push(Ty::Variadic(Box::new(Ty::Prim(rng.pick(&["integer", "string", "any"])))));
+            }
+            Ty::Tuple(ts)
+        }
+        80..=91 => {
+            let np = rng.range(0, 3);
+            let generic = if o.exotic && rng.chance(1, 3) { Some("T".to_string()) } else { None };
+            let tvar = |rng: &mut Rng, h: &Hier, sub: &GenOpts, generic: &Option<String>| -> Ty {
+                match generic {
+                    Some(g) if rng.bool() => Ty::Class(g.clone()),
+                    _ => gen_type(rng, h, sub),
+                }
+            };
+            let mut params = Vec::new();
+            for i in 0..np {
+                let ty = if rng.chance(1, 6) { None } else { Some(tvar(rng, h, &sub, &generic)) };
+                params.push(Param { name: if i == 0 && rng.chance(1, 8) { "self".into() } else { format!("p{i}") }, optional: rng.chance(1, 5), ty });
+            }
+            let vararg = if o.exotic && rng.chance(1, 5) { Some(if rng.bool() { Some(gen_leaf(rng, h, &sub)) } else { None }) } else { None };
+            let nr = match rng.below(10) {
+                0..=2 => 0,
+                3..=8 => 1,
+                _ => 2,
+            };
+            let mut rets: Vec<Ty> = (0..nr).map(|_| tvar(rng, h, &sub, &generic)).collect();
+            if o.exotic && nr > 0 && rng.chance(1, 6) {
+                rets.push(Ty::Variadic(Box::new(Ty::Prim(rng.pick(&["integer", "string", "any"])))));
+            }
+            Ty::Fun(Box::new(FunTy { is_async: o.exotic && rng.chance(1, 10), generic, params, vararg, rets }))
+        }
+        _ => {
+            let mut gs = h.generic_classes();
+            if o.generic_alias {
+                // instances of generic aliases are the rarer, more fragile form: half of the time only them
+                if rng.bool() {
+                    gs = h.generic_aliases();
+                } else {
+                    gs.extend(h.generic_aliases());
+                }
+            }
+            if gs.is_empty() {
+                return gen_leaf(rng, h, o);
+            }
+            let (n, ar) = gs[rng.below(gs.len())];
+            Ty::Generic(n.to_string(), (0..ar).map(|_| gen_type(rng, h, &sub)).collect())
+        }
+    }
+}
+
+fn gen_map_key(rng: &mut Rng, h: &Hier, o: &GenOpts) -> Ty {
+    match rng.below(10) {
+        0..=3 => Ty::Prim("string"),
+        4..=5 => Ty::Prim("integer"),
+        6 => Ty::Prim("number"),
+        _ => gen_type(rng, h, &GenOpts { depth: o.depth.min(2), ..o.clone() }),
+    }
+}
+
+// ───────────────────────────── shrinking ─────────────────────────────
+
+/// One-step simplifications of `t`, roughly ordered from most to least aggressive.
+pub fn shrink_candidates(t: &Ty) -> Vec<Ty> {
+    let mut out: Vec<Ty> = Vec::new();
+    // hoist children
+    for c in t.children() {
+        out.push(c.clone());
+    }
+    // replace by the simplest leaf
+    if *t != Ty::Prim("integer") {
+        out.push(Ty::Prim("integer"));
+        // second simplest leaf: lets `integer|X` converge to `integer|string`
+        if *t != Ty::Prim("string") {
+            out.push(Ty::Prim("string"));
+        }
+    }
+    match t {
+        Ty::Str(s) => {
+            if s != "a" {
+                out.push(Ty::Str("a".into()));
+            }
+            let cs: Vec<char> = s.chars().collect();
+            for i in 0..cs.len() {
+                let mut v = cs.clone();
+                v.remove(i);
+                out.push(Ty::Str(v.into_iter().collect()));
+            }
+            for i in 0..cs.len() {
+                if cs[i] != 'a' && cs[i] != 'b' {
+                    let mut v = cs.clone();
+                    v[i] = 'b';
+                    out.push(Ty::Str(v.into_iter().collect()));
+                }
+            }
+        }
+        Ty::Int(i) if *i != 1 => {
+            out.push(Ty::Int(1));
+            if *i < 0 {
+                out.push(Ty::Int(-1));
+            }
+        }
+        Ty::Bool(false) => out.push(Ty::Bool(true)),
+        Ty::Union(ms) => {
+            if ms.len() == 2 && ms.contains(&Ty::Prim("nil")) {
+                let other = ms.iter().find(|m| **m != Ty::Prim("nil")).cloned().unwrap_or(Ty::Prim("integer"));
+                out.push(Ty::Opt(Box::new(other)));
+            }
+            for i in 0..ms.len() {
+                let mut v = ms.clone();
+                v.remove(i);
+                out.push(if v.len() == 1 { v.pop().unwrap() } else { Ty::Union(v) });
+            }
+            for i in 0..ms.len() {
+                for c in shrink_candidates(&ms[i]) {
+                    if matches!(c, Ty::Union(_)) || ms.contains(&c) {
+                        continue;
+                    }
+                    let mut v = ms.clone();
+                    v[i] = c;
+                    out.push(Ty::Union(v));
+                }
+            }
+        }
+        Ty::Opt(x) => {
+            for c in shrink_candidates(x) {
+                out.push(Ty::Opt(Box::new(c)));
+            }
+        }
+        Ty::Array(x) => {
+            for c in shrink_candidates(x) {
+                out.push(Ty::Array(Box::new(c)));
+            }
+        }
+        Ty::Variadic(x) => {
+            for c in shrink_candidates(x) {
+                if matches!(c, Ty::Prim(_) | Ty::Class(_)) {
+                    out.push(Ty::Variadic(Box::new(c)));
+                }
+            }
+        }
+        Ty::Tuple(ts) => {
+            for i in 0..ts.len() {
+                let mut v = ts.clone();
+                v.remove(i);
+                out.push(Ty::Tuple(v));
+            }
+            for i in 0..ts.len() {
+                for c in shrink_candidates(&ts[i]) {
+                    if matches!(c, Ty::Variadic(_)) && i + 1 != ts.len() {
+                        continue;
+                    }
+                    let mut v = ts.clone();
+                    v[i] = c;
+                    out.push(Ty::Tuple(v));
+                }
+            }
+        }
+        Ty::Generic(n, ts) => {
+            for i in 0..ts.len() {
+                for c in shrink_candidates(&ts[i]) {
+                    let mut v = ts.clone();
+                    v[i] = c;
+                    out.push(Ty::Generic(n.clone(), v));
+                }
+            }
+        }
+        Ty::Map(k, v) => {
+            for c in shrink_candidates(k) {
+                out.push(Ty::Map(Box::new(c), v.clone()));
+            }
+            for c in shrink_candidates(v) {
+                out.push(Ty::Map(k.clone(), Box::new(c)));
+            }
+        }
+        Ty::Record(fs) => {
+            for i in 0..fs.len() {
+                let mut v = fs.clone();
+                v.remove(i);
+                out.push(Ty::Record(v));
+            }
+            for i in 0..fs.len() {
+                if fs[i].optional {
+                    let mut v = fs.clone();
+                    v[i].optional = false;
+                    out.push(Ty::Record(v));
+                }
+                if let FieldKey::Str(k) = &fs[i].key {
+                    for c in shrink_candidates(&Ty::Str(k.clone())) {
+                        if let Ty::Str(k2) = c {
+                            let mut v = fs.clone();
+                            v[i].key = FieldKey::Str(k2);
+                            if !fs.iter().any(|f| f.key == v[i].key) {
+                                out.push(Ty::Record(v));
+                            }
+                        }
+                    }
+                }
+                if !matches!(fs[i].key, FieldKey::Name(_)) {
+                    let mut v = fs.clone();
+                    v[i].key = FieldKey::Name("f".into());
+                    if !fs.iter().any(|f| f.key == v[i].key) {
+                        out.push(Ty::Record(v));
+                    }
+                }
+                for c in shrink_candidates(&fs[i].ty) {
+                    let mut v = fs.clone();
+                    v[i].ty = c;
+                    out.push(Ty::Record(v));
+                }
+            }
+        }
+        Ty::Fun(f) => {
+            if f.is_async {
+                let mut g = f.clone();
+                g.is_async = false;
+                out.push(Ty::Fun(g));
+            }
+            if f.vararg.is_some() {
+                let mut g = f.clone();
+                g.vararg = None;
+                out.push(Ty::Fun(g));
+            }
+            if f.generic.is_some() {
+                // dropping the generic parameter is only valid when nothing mentions it
+                let mut names = BTreeSet::new();
+                for c in t.children() {
+                    c.names(&mut names);
+                }
+                if !names.contains(f.generic.as_ref().unwrap()) {
+                    let mut g = f.clone();
+                    g.generic = None;
+                    out.push(Ty::Fun(g));
+                }
+            }
+            for i in 0..f.params.len() {
+                let mut g = f.clone();
+                g.params.remove(i);
+                out.push(Ty::Fun(g));
+            }
+            for i in 0..f.rets.len() {
+                let mut g = f.clone();
+                g.rets.remove(i);
+                out.push(Ty::Fun(g));
+            }
+            for i in 0..f.params.len() {
+                if f.params[i].optional {
+                    let mut g = f.clone();
+                    g.params[i].optional = false;
+                    out.push(Ty::Fun(g));
+                }
+                if let Some(pt) = &f.params[i].ty {
+                    for c in shrink_candidates(pt) {
+                        let mut g = f.clone();
+                        g.params[i].ty = Some(c);
+                        out.push(Ty::Fun(g));
+                    }
+                }
+            }
+            for i in 0..f.rets.len() {
+                for c in shrink_candidates(&f.rets[i]) {
+                    if matches!(c, Ty::Variadic(_)) && i + 1 != f.rets.len() {
+                        continue;
+                    }
+                    let mut g = f.clone();
+                    g.rets[i] = c;
+                    out.push(Ty::Fun(g));
+                }
+            }
+        }
+        _ => {}
+    }
+    // a Variadic may not become the root or a non-last element
+    out.retain(|c| !matches!(c, Ty::Variadic(_)) || matches!(t, Ty::Variadic(_)));
+    out.dedup();
+    out
+}
+
+/// Simplicity measure used by `shrink`: (node count, leaf/flag complexity, printed length).
+/// `integer` is the simplest leaf, `"a"`/`"b"` the simplest string characters, so that shrunk
+/// witnesses of one root cause converge to one shape.
+pub fn weight(t: &Ty) -> (usize, usize, usize) {
+    (t.nodes(), complexity(t), t.print().len())
+}
+
+fn str_complexity(s: &str) -> usize {
+    s.chars().map(|c| if c == 'a' || c == 'b' { 2 } else { 3 }).sum::<usize>()
+}
+
+fn complexity(t: &Ty) -> usize {
+    let own = match t {
+        Ty::Prim("integer") => 0,
+        Ty::Prim("string") => 1,
+        Ty::Prim(_) => 2,
+        Ty::Int(1) => 2,
+        Ty::Int(-1) => 3,
+        Ty::Int(_) => 4,
+        Ty::Bool(true) => 2,
+        Ty::Bool(false) => 3,
+        Ty::Str(s) => 3 + str_complexity(s),
+        Ty::Class(_) => 4,
+        Ty::Alias(_) | Ty::Enum(_) => 5,
+        Ty::Record(fs) => {
+            1 + fs
+                .iter()
+                .map(|f| {
+                    (f.optional as usize)
+                        + match &f.key {
+                            FieldKey::Name(_) => 0,
+                            FieldKey::Int(_) => 1,
+                            FieldKey::Str(s) => 2 + str_complexity(s),
+                            FieldKey::Index(_) => 2,
+                        }
+                })
+                .sum::<usize>()
+        }
+        Ty::Fun(f) => 1 + f.is_async as usize + f.vararg.is_some() as usize + f.generic.is_some() as usize + f.params.iter().map(|p| p.optional as usize + (p.name == "self") as usize).sum::<usize>(),
+        _ => 1,
+    };
+    own + t.children().iter().map(|c| complexity(c)).sum::<usize>()
+}
+
+/// Greedy shrinking: repeatedly take the first strictly simpler candidate that still fails.
+pub fn shrink(t: &Ty, mut fails: impl FnMut(&Ty) -> bool, max_tests: usize) -> Ty {
+    let mut cur = t.clone();
+    let mut tests = 0usize;
+    'outer: loop {
+        let w = weight(&cur);
+        for c in shrink_candidates(&cur) {
+            if weight(&c) >= w {
+                continue;
+            }
+            if tests >= max_tests {
+                break 'outer;
+            }
+            tests += 1;
+            if fails(&c) {
+                cur = c;
+                continue 'outer;
+            }
+        }
+        break;
+    }
+    cur
+}
+
+impl Ty {
+    /// Bottom-up rewrite of every node.
+    pub fn rewrite(&self, f: &dyn Fn(Ty) -> Ty) -> Ty {
+        let inner = match self {
+            Ty::Union(v) => Ty::Union(v.iter().map(|x| x.rewrite(f)).collect()),
+            Ty::Tuple(v) => Ty::Tuple(v.iter().map(|x| x.rewrite(f)).collect()),
+            Ty::Generic(n, v) => Ty::Generic(n.clone(), v.iter().map(|x| x.rewrite(f)).collect()),
+            Ty::Opt(x) => Ty::Opt(Box::new(x.rewrite(f))),
+            Ty::Array(x) => Ty::Array(Box::new(x.rewrite(f))),
+            Ty::Variadic(x) => Ty::Variadic(Box::new(x.rewrite(f))),
+            Ty::Map(k, v) => Ty::Map(Box::new(k.rewrite(f)), Box::new(v.rewrite(f))),
+            Ty::Record(fs) => Ty::Record(
+                fs.iter()
+                    .map(|fl| Field {
+                        key: match &fl.key {
+                            FieldKey::Index(k) => FieldKey::Index(k.rewrite(f)),
+                            k => k.clone(),
+                        },
+                        optional: fl.optional,
+                        ty: fl.ty.rewrite(f),
+                    })
+                    .collect(),
+            ),
+            Ty::Fun(fun) => Ty::Fun(Box::new(FunTy {
+                is_async: fun.is_async,
+                generic: fun.generic.clone(),
+                params: fun.params.iter().map(|p| Param { name: p.name.clone(), optional: p.optional, ty: p.ty.as_ref().map(|t| t.rewrite(f)) }).collect(),
+                vararg: fun.vararg.as_ref().map(|v| v.as_ref().map(|t| t.rewrite(f))),
+                rets: fun.rets.iter().map(|t| t.rewrite(f)).collect(),
+            })),
+            x => x.clone(),
+        };
+        f(inner)
+    }
+
+    /// Plain alias references replaced by the alias bodies (aliases are not recursive).
+    pub fn inline_aliases(&self, h: &Hier) -> Ty {
+        let mut cur = self.clone();
+        for _ in 0..8 {
+            let next = cur.rewrite(&|t| match &t {
+                Ty::Alias(n) => h.aliases.iter().find(|a| a.name == *n && a.tparams.is_empty()).map(|a| a.ty.clone()).unwrap_or(t),
+                _ => t,
+            });
+            if next == cur {
+                break;
+            }
+            cur = next;
+        }
+        cur
+    }
+}
+
+/// `shrink`, then — when the witness still hides behind an alias — inline the alias bodies and
+/// shrink again, so that a root cause reached through an alias converges to the same witness.
+pub fn shrink_h(t: &Ty, h: &Hier, mut fails: impl FnMut(&Ty) -> bool, max_tests: usize) -> Ty {
+    let small = shrink(t, &mut fails, max_tests);
+    let mut names = BTreeSet::new();
+    small.names(&mut names);
+    if !h.aliases.iter().any(|a| a.tparams.is_empty() && names.contains(&a.name)) {
+        return small;
+    }
+    let inl = small.inline_aliases(h);
+    if inl != small && fails(&inl) {
+        return shrink(&inl, &mut fails, max_tests);
+    }
+    small
+}
+
+// ───────────────────────────── canonical form of real LuaTypes ─────────────────────────────
+
+#[derive(Clone, Debug, PartialEq, Eq, Hash, PartialOrd, Ord)]
+pub enum Canon {
+    Prim(&'static str),
+    /// (value, came from an annotation)
+    Str(String, bool),
+    Int(i64, bool),
+    Bool(bool, bool),
+    Float(u64),
+    Ref(String),
+    Arr(Box<Canon>),
+    Tup(Vec<Canon>),
+    /// table<...>
+    Map(Vec<Canon>),
+    /// sorted named/int fields, index signatures
+    Obj(Vec<(String, Canon)>, Vec<(Canon, Canon)>),
+    Fun { is_async: bool, colon: bool, variadic: bool, params: Vec<(String, Option<Canon>)>, ret: Box<Canon> },
+    Gen(String, Vec<Canon>),
+    Var(Box<Canon>),
+    VarMulti(Vec<Canon>),
+    /// sorted, de-duplicated, flattened, ≥ 2 members
+    Union(Vec<Canon>),
+    Opaque(String),
+}
+
+pub fn mk_union(ms: Vec<Canon>) -> Canon {
+    let mut set: BTreeSet<Canon> = BTreeSet::new();
+    for m in ms {
+        match m {
+            Canon::Union(inner) => set.extend(inner),
+            m => {
+                set.insert(m);
+            }
+        }
+    }
+    let mut v: Vec<Canon> = set.into_iter().collect();
+    match v.len() {
+        0 => Canon::Prim("never"),
+        1 => v.pop().unwrap(),
+        _ => Canon::Union(v),
+    }
+}
+
+/// `strict` keeps the distinction between annotation literals and inferred literals and between
+/// `Def` and `Ref` (needed when two *results of the same operation* are compared, C16 union clause).
+pub fn canon(t: &LuaType, strict: bool) -> Canon {
+    let doc = |d: bool| if strict { d } else { true };
+    match t {
+        LuaType::Unknown => Canon::Prim("unknown"),
+        LuaType::Any => Canon::Prim("any"),
+        LuaType::Nil => Canon::Prim("nil"),
+        LuaType::Table => Canon::Prim("table"),
+        LuaType::TableConst(_) => {
+            if strict {
+                Canon::Opaque("tableconst".into())
+            } else {
+                Canon::Prim("table")
+            }
+        }
+        LuaType::Userdata => Canon::Prim("userdata"),
+        LuaType::Function => Canon::Prim("function"),
+        LuaType::Thread => Canon::Prim("thread"),
+        LuaType::Boolean => Canon::Prim("boolean"),
+        LuaType::String => Canon::Prim("string"),
+        LuaType::Integer => Canon::Prim("integer"),
+        LuaType::Number => Canon::Prim("number"),
+        LuaType::Io => Canon::Prim("io"),
+        LuaType::SelfInfer => Canon::Prim("self"),
+        LuaType::Global => Canon::Prim("global"),
+        LuaType::Never => Canon::Prim("never"),
+        LuaType::BooleanConst(b) => Canon::Bool(*b, doc(false)),
+        LuaType::DocBooleanConst(b) => Canon::Bool(*b, true),
+        LuaType::StringConst(s) => Canon::Str(s.to_string(), doc(false)),
+        LuaType::DocStringConst(s) => Canon::Str(s.to_string(), true),
+        LuaType::IntegerConst(i) => Canon::Int(*i, doc(false)),
+        LuaType::DocIntegerConst(i) => Canon::Int(*i, true),
+        LuaType::FloatConst(f) => Canon::Float(f.to_bits()),
+        LuaType::Ref(id) => Canon::Ref(id.get_name().to_string()),
+        LuaType::Def(id) => {
+            if strict {
+                Canon::Opaque(format!("def:{}", id.get_name()))
+            } else {
+                Canon::Ref(id.get_name().to_string())
+            }
+        }
+        LuaType::Array(a) => Canon::Arr(Box::new(canon(a.get_base(), strict))),
+        LuaType::Tuple(tp) => Canon::Tup(tp.get_types().iter().map(|x| canon(x, strict)).collect()),
+        LuaType::TableGeneric(ps) => Canon::Map(ps.iter().map(|x| canon(x, strict)).collect()),
+        LuaType::Object(o) => {
+            let mut fs: Vec<(String, Canon)> = o
+                .get_fields()
+                .iter()
+                .map(|(k, v)| {
+                    let ks = match k {
+                        LuaMemberKey::Name(n) => format!("n:{n}"),
+                        LuaMemberKey::Integer(i) => format!("i:{i}"),
+                        LuaMemberKey::None => "none".to_string(),
+                        LuaMemberKey::TypeKey(t) => format!("t:{:?}", canon(t, strict)),
+                    };
+                    (ks, canon(v, strict))
+                })
+                .collect();
+            fs.sort();
+            let mut ix: Vec<(Canon, Canon)> = o.get_index_access().iter().map(|(k, v)| (canon(k, strict), canon(v, strict))).collect();
+            ix.sort();
+            Canon::Obj(fs, ix)
+        }
+        LuaType::Union(u) => mk_union(u.into_vec().iter().map(|x| canon(x, strict)).collect()),
+        LuaType::MultiLineUnion(m) => mk_union(m.get_unions().iter().map(|(x, _)| canon(x, strict)).collect()),
+        LuaType::DocFunction(f) => Canon::Fun {
+            is_async: matches!(f.get_async_state(), AsyncState::Async),
+            colon: f.is_colon_define(),
+            variadic: f.is_variadic(),
+            params: f.get_params().iter().map(|(n, t)| (n.clone(), t.as_ref().map(|x| canon(x, strict)))).collect(),
+            ret: Box::new(canon(f.get_ret(), strict)),
+        },
+        LuaType::Generic(g) => Canon::Gen(g.get_base_type_id_ref().get_name().to_string(), g.get_params().iter().map(|x| canon(x, strict)).collect()),
+        LuaType::Variadic(v) => match &**v {
+            VariadicType::Base(b) => Canon::Var(Box::new(canon(b, strict))),
+            VariadicType::Multi(ms) => Canon::VarMulti(ms.iter().map(|x| canon(x, strict)).collect()),
+        },
+        LuaType::Instance(i) => canon(i.get_base(), strict),
+        LuaType::TplRef(tpl) => Canon::Opaque(format!("tpl:{}", tpl.get_name())),
+        LuaType::StrTplRef(_) => Canon::Opaque("strtpl".into()),
+        LuaType::Signature(_) => Canon::Opaque("signature".into()),
+        LuaType::Intersection(_) => Canon::Opaque("intersection".into()),
+        LuaType::Namespace(_) => Canon::Opaque("namespace".into()),
+        LuaType::Call(_) => Canon::Opaque("call".into()),
+        LuaType::TypeGuard(_) => Canon::Opaque("typeguard".into()),
+        LuaType::Language(_) => Canon::Opaque("language".into()),
+        LuaType::ModuleRef(_) => Canon::Opaque("moduleref".into()),
+        LuaType::Conditional(_) => Canon::Opaque("conditional".into()),
+        LuaType::Mapped(_) => Canon::Opaque("mapped".into()),
+    }
+}
+
+impl Canon {
+    pub fn children(&self) -> Vec<&Canon> {
+        match self {
+            Canon::Arr(x) | Canon::Var(x) => vec![x],
+            Canon::Tup(v) | Canon::Map(v) | Canon::Gen(_, v) | Canon::VarMulti(v) | Canon::Union(v) => v.iter().collect(),
+            Canon::Obj(fs, ix) => {
+                let mut o: Vec<&Canon> = fs.iter().map(|(_, v)| v).collect();
+                for (k, v) in ix {
+                    o.push(k);
+                    o.push(v);
+                }
+                o
+            }
+            Canon::Fun { params, ret, .. } => {
+                let mut o: Vec<&Canon> = params.iter().filter_map(|(_, t)| t.as_ref()).collect();
+                o.push(ret);
+                o
+            }
+            _ => vec![],
+        }
+    }
+    pub fn nodes(&self) -> usize {
+        1 + self.children().iter().map(|c| c.nodes()).sum::<usize>()
+    }
+    pub fn any(&self, f: &dyn Fn(&Canon) -> bool) -> bool {
+        f(self) || self.children().iter().any(|c| c.any(f))
+    }
+    /// `table<...>` with a number of parameters other than two (only arises from a mis-lexed annotation)
+    pub fn malformed(&self) -> bool {
+        self.any(&|c| matches!(c, Canon::Map(v) if v.len() != 2))
+    }
+    pub fn has_opaque(&self) -> bool {
+        self.any(&|c| matches!(c, Canon::Opaque(_)))
+    }
+    pub fn has_prim(&self, p: &str) -> bool {
+        self.any(&|c| matches!(c, Canon::Prim(q) if *q == p))
+    }
+    pub fn members(&self) -> Vec<Canon> {
+        match self {
+            Canon::Union(v) => v.clone(),
+            x => vec![x.clone()],
+        }
+    }
+
+    /// Bottom-up rewrite; unions are re-normalised.
+    pub fn map(&self, f: &dyn Fn(Canon) -> Canon) -> Canon {
+        let inner = match self {
+            Canon::Arr(x) => Canon::Arr(Box::new(x.map(f))),
+            Canon::Var(x) => Canon::Var(Box::new(x.map(f))),
+            Canon::Tup(v) => Canon::Tup(v.iter().map(|x| x.map(f)).collect()),
+            Canon::Map(v) => Canon::Map(v.iter().map(|x| x.map(f)).collect()),
+            Canon::VarMulti(v) => Canon::VarMulti(v.iter().map(|x| x.map(f)).collect()),
+            Canon::Gen(n, v) => Canon::Gen(n.clone(), v.iter().map(|x| x.map(f)).collect()),
+            Canon::Union(v) => mk_union(v.iter().map(|x| x.map(f)).collect()),
+            Canon::Obj(fs, ix) => {
+                let mut ix2: Vec<(Canon, Canon)> = ix.iter().map(|(k, v)| (k.map(f), v.map(f))).collect();
+                ix2.sort();
+                Canon::Obj(fs.iter().map(|(k, v)| (k.clone(), v.map(f))).collect(), ix2)
+            }
+            Canon::Fun { is_async, colon, variadic, params, ret } => Canon::Fun {
+                is_async: *is_async,
+                colon: *colon,
+                variadic: *variadic,
+                params: params.iter().map(|(n, t)| (n.clone(), t.as_ref().map(|x| x.map(f)))).collect(),
+                ret: Box::new(ret.map(f)),
+            },
+            x => x.clone(),
+        };
+        match f(inner) {
+            Canon::Union(v) => mk_union(v),
+            x => x,
+        }
+    }
+
+    /// Every literal replaced by its base type (`"a"` → string, `1` → integer, `true` → boolean).
+    pub fn widen(&self) -> Canon {
+        self.map(&|c| match c {
+            Canon::Str(..) => Canon::Prim("string"),
+            Canon::Int(..) => Canon::Prim("integer"),
+            Canon::Bool(..) => Canon::Prim("boolean"),
+            Canon::Float(_) => Canon::Prim("number"),
+            x => x,
+        })
+    }
+
+    /// Alias references replaced by their (already canonical, already expanded) origin.
+    pub fn expand(&self, aliases: &BTreeMap<String, Canon>) -> Canon {
+        self.map(&|c| match &c {
+            Canon::Ref(n) => aliases.get(n).cloned().unwrap_or(c),
+            _ => c,
+        })
+    }
+
+    /// `any | X` → `any` (what `TypeOps::Union` does; an annotation `X|any` keeps both members)
+    pub fn absorb_any(&self) -> Canon {
+        self.map(&|c| match &c {
+            Canon::Union(v) if v.contains(&Canon::Prim("any")) => Canon::Prim("any"),
+            _ => c,
+        })
+    }
+
+    pub fn show(&self) -> String {
+        match self {
+            Canon::Prim(p) => p.to_string(),
+            Canon::Str(s, d) => format!("{}{}", escape_str(s, '"'), if *d { "" } else { "~" }),
+            Canon::Int(i, d) => format!("{i}{}", if *d { "" } else { "~" }),
+            Canon::Bool(b, d) => format!("{b}{}", if *d { "" } else { "~" }),
+            Canon::Float(bits) => format!("{:?}", f64::from_bits(*bits)),
+            Canon::Ref(n) => n.clone(),
+            Canon::Arr(x) => format!("({})[]", x.show()),
+            Canon::Tup(v) => format!("[{}]", v.iter().map(|x| x.show()).collect::<Vec<_>>().join(", ")),
+            Canon::Map(v) => format!("table<{}>", v.iter().map(|x| x.show()).collect::<Vec<_>>().join(", ")),
+            Canon::Obj(fs, ix) => {
+                let mut parts: Vec<String> = fs.iter().map(|(k, v)| format!("{k}: {}", v.show())).collect();
+                parts.extend(ix.iter().map(|(k, v)| format!("[{}]: {}", k.show(), v.show())));
+                format!("{{{}}}", parts.join(", "))
+            }
+            Canon::Fun { is_async, colon, variadic, params, ret } => format!(
+                "{}fun{}{}({}): {}",
+                if *is_async { "async " } else { "" },
+                if *colon { ":" } else { "" },
+                if *variadic { "~va" } else { "" },
+                params.iter().map(|(n, t)| format!("{n}: {}", t.as_ref().map(|x| x.show()).unwrap_or_else(|| "_".into()))).collect::<Vec<_>>().join(", "),
+                ret.show()
+            ),
+            Canon::Gen(n, v) => format!("{n}<{}>", v.iter().map(|x| x.show()).collect::<Vec<_>>().join(", ")),
+            Canon::Var(x) => format!("{}...", x.show()),
+            Canon::VarMulti(v) => format!("multi({})", v.iter().map(|x| x.show()).collect::<Vec<_>>().join(", ")),
+            Canon::Union(v) => format!("({})", v.iter().map(|x| x.show()).collect::<Vec<_>>().join(" | ")),
+            Canon::Opaque(s) => format!("<{s}>"),
+        }
+    }
+}
+
+// ───────────────────────────── workspace helper ─────────────────────────────
+
+/// A `VirtualWorkspace` (the repository's public test helper) holding one hierarchy definition
+/// file; evaluates many `---@type` annotations per virtual file.
+pub struct TypeWs {
+    pub ws: VirtualWorkspace,
+    pub files: usize,
+}
+
+impl TypeWs {
+    pub fn new(defs: &str) -> TypeWs {
+        let mut ws = VirtualWorkspace::new();
+        if !defs.is_empty() {
+            ws.def(defs);
+        }
+        TypeWs { ws, files: 1 }
+    }
+
+    /// `---@type <repr>\nlocal tN` for every repr in one file; returns the declared types in order.
+    /// An entry is `None` when the local could not be found / has no semantic info.
+    pub fn types(&mut self, reprs: &[String]) -> Vec<Option<LuaType>> {
+        let mut text = String::new();
+        for (i, r) in reprs.iter().enumerate() {
+            text.push_str("---@type ");
+            text.push_str(r);
+            text.push_str(&format!("\nlocal t{i}\n"));
+        }
+        let file_id = self.ws.def(&text);
+        self.files += 1;
+        let mut out: Vec<Option<LuaType>> = vec![None; reprs.len()];
+        for (name, ty) in self.local_types(file_id) {
+            if let Some(ix) = name.strip_prefix('t').and_then(|n| n.parse::<usize>().ok()) {
+                if ix < out.len() {
+                    out[ix] = Some(ty);
+                }
+            }
+        }
+        out
+    }
+
+    pub fn ty(&mut self, repr: &str) -> Option<LuaType> {
+        self.types(&[repr.to_string()]).pop().flatten()
+    }
+
+    /// (local name, type) for every `local` name declared in the file, in source order.
+    pub fn local_types(&self, file_id: FileId) -> Vec<(String, LuaType)> {
+        let mut out = Vec::new();
+        let Some(model) = self.ws.analysis.compilation.get_semantic_model(file_id) else {
+            return out;
+        };
+        let root = model.get_root();
+        for ln in root.descendants::<LuaLocalName>() {
+            let Some(tok) = ln.get_name_token() else { continue };
+            let name = tok.get_name_text().to_string();
+            if let Some(info) = model.get_semantic_info(tok.syntax().clone().into()) {
+                out.push((name, info.typ));
+            }
+        }
+        out
+    }
+
+    /// plain alias name -> fully expanded canonical origin, computed from the *real* types of the
+    /// alias bodies (aliases may mention earlier aliases only)
+    pub fn alias_map(&mut self, hier: &Hier) -> BTreeMap<String, Canon> {
+        let mut m = BTreeMap::new();
+        for a in &hier.aliases {
+            if !a.tparams.is_empty() {
+                continue;
+            }
+            if let Some(t) = self.ty(&a.ty.print()) {
+                let c = canon(&t, false).expand(&m);
+                m.insert(a.name.clone(), c);
+            }
+        }
+        m
+    }
+
+    pub fn def(&mut self, text: &str) -> FileId {
+        self.files += 1;
+        self.ws.def(text)
+    }
+
+    pub fn check(&self, expected: &LuaType, actual: &LuaType) -> bool {
+        self.ws.check_type(expected, actual)
+    }
+
+    pub fn render(&self, t: &LuaType) -> String {
+        humanize_type(self.ws.analysis.compilation.get_db(), t, RenderLevel::Documentation)
+    }
+
+    /// 0-based lines carrying a diagnostic with this code.
+    pub fn diag_lines(&mut self, file_id: FileId, code: DiagnosticCode) -> Option<Vec<(u32, String)>> {
+        self.ws.analysis.diagnostic.enable_only(code);
+        let ds = self.ws.analysis.diagnose_file(file_id, tokio_util::sync::CancellationToken::new())?;
+        let want = code.get_name().to_string();
+        let mut out = Vec::new();
+        for d in ds {
+            let is = match &d.code {
+                Some(lsp_types::NumberOrString::String(s)) => *s == want,
+                _ => false,
+            };
+            if is {
+                out.push((d.range.start.line, d.message.clone()));
+            }
+        }
+        Some(out)
+    }
+}
